@@ -138,6 +138,7 @@ package allocation
 //@   ensures [C08:result] res == old(exists i :: 0 <= i && i < len(a.channelBindings) && a.channelBindings[i].Number == number)
 //@   ensures [C08:len] len(a.channelBindings) == old(len(a.channelBindings)) - (res ? 1 : 0)
 //@   ensures [C08:kept] !res ==> sameSlice(a.channelBindings, old(a.channelBindings))
+//@   ensures base(a.channelBindings) == old(base(a.channelBindings)) || fresh(base(a.channelBindings))
 //@   ensures chansWF(a)
 //@   assigns a.channelBindings, mem(a.channelBindings)
 //@   loop 0 invariant -1 <= i && i < len(a.channelBindings) && sameSlice(a.channelBindings, old(a.channelBindings)) && chansWF(a)
@@ -209,3 +210,64 @@ package allocation
 //@   ensures [C06:refresh] timerSet(a.lifetimeTimer, lifetime)
 //@   ensures forall t :: t != a.lifetimeTimer ==> dur(t) == old(dur(t)) && armed(t) == old(armed(t))
 //@   assigns timers
+
+//@      // ---- teardown (C06, C15)
+//@ spec func inPerms(ps []*Permission, p *Permission) bool = exists j :: 0 <= j && j < len(ps) && ps[j] == p
+
+//@ func (*Allocation).ListPermissions
+//@   requires permsWF(a)
+//@   pure
+//@   ensures [C06,C15:all-listed] forall k :: haskey(a.permissions, k) ==> inPerms(res, valat(a.permissions, k))
+//@   ensures [C15:only-listed] forall j :: 0 <= j && j < len(res) ==> res[j] != nil && exists k :: haskey(a.permissions, k) && valat(a.permissions, k) == res[j]
+//@   ensures fresh(base(res)) || len(res) == 0
+//@   loop 0 invariant forall k :: seenkey(k) ==> inPerms(ps, valat(a.permissions, k))
+//@   loop 0 invariant forall j :: 0 <= j && j < len(ps) ==> ps[j] != nil && exists k :: haskey(a.permissions, k) && valat(a.permissions, k) == ps[j]
+//@   loop 0 invariant permsWF(a) && base(ps) >= old(allocTop)
+
+//@ func (*Allocation).ListChannelBindings
+//@   pure
+//@   ensures [C06,C15:all-listed] len(res) == len(a.channelBindings) && forall j :: 0 <= j && j < len(res) ==> res[j] == a.channelBindings[j]
+//@   ensures fresh(base(res)) || len(res) == 0
+
+//@      // peer TCP connections of an allocation (RFC 6062); guarded by the manager's lock
+//@ spec func tcpConnsWF(a *Allocation) bool = forall k :: haskey(a.tcpConnections, k) ==> valat(a.tcpConnections, k) != nil && valat(a.tcpConnections, k).bindTimer != nil && valat(a.tcpConnections, k).Conn != nil
+
+//@ func (*Allocation).removeTCPConnection
+//@   requires tcpConnsWF(a) && a.log != nil
+//@   ensures [C15,C16:removed] !has(a.tcpConnections, connectionID)
+//@   ensures [C15,C16:frame] forall k :: k != keyof(a.tcpConnections, connectionID) ==> haskey(a.tcpConnections, k) == old(haskey(a.tcpConnections, k)) && valat(a.tcpConnections, k) == old(valat(a.tcpConnections, k))
+//@   ensures [C15,C16:closed-once] socketsClosed == old(socketsClosed) + (old(has(a.tcpConnections, connectionID)) ? 1 : 0)
+//@   ensures [C16:timer-stopped] old(has(a.tcpConnections, connectionID)) ==> !armed(old(a.tcpConnections[connectionID]).bindTimer)
+//@   ensures forall t :: dur(t) == old(dur(t)) && timerfn(t) == old(timerfn(t)) && (armed(t) ==> old(armed(t)))
+//@   assigns entries(a.tcpConnections), socketsClosed, timers
+
+//@ signal allocation.Allocation.closed
+
+//@ spec func closeReady(a *Allocation) bool = a.closed != nil && a.lifetimeTimer != nil && a.fiveTuple != nil && a.log != nil && permsWF(a) && permTimers(a) && permKeysOK(a) && chansWF(a) && chanTimers(a) && tcpConnsWF(a)
+
+//@ func (*Allocation).Close
+//@   requires closeReady(a)
+//@   ensures [C06,C15:closed] closed(a.closed)
+//@   ensures [C15:idempotent] old(closed(a.closed)) ==> res == nil && socketsClosed == old(socketsClosed)
+//@   ensures [C06:timer-stopped] old(!closed(a.closed)) ==> !armed(a.lifetimeTimer)
+//@   ensures [C15,C16:tcp-gone] old(!closed(a.closed)) ==> forall k :: !haskey(a.tcpConnections, k)
+//@   ensures [C15:relay-closed] old(!closed(a.closed)) && (a.relayPacketConn != nil || a.relayListener != nil) ==> socketsClosed >= old(socketsClosed) + 1
+//@   ensures [C15:no-new-state] forall k :: haskey(a.permissions, k) ==> old(haskey(a.permissions, k))
+//@   assigns channels, timers, socketsClosed, entries(a.tcpConnections), entries(a.permissions), a.channelBindings, mem(a.channelBindings)
+//@   loop 0 invariant closeReady(a) && closed(a.closed) && !armed(a.lifetimeTimer) && socketsClosed >= old(socketsClosed)
+//@   loop 0 invariant forall k :: seenkey(k) ==> !haskey(a.tcpConnections, k)
+//@   loop 1 invariant closeReady(a) && closed(a.closed) && !armed(a.lifetimeTimer) && socketsClosed >= old(socketsClosed) && (forall k :: !haskey(a.tcpConnections, k))
+//@   loop 1 invariant -1 <= rangeindex && rangeindex < len(ranged()) && (forall j :: 0 <= j && j < len(ranged()) ==> ranged()[j] != nil && ranged()[j].lifetimeTimer != nil)
+//@   loop 1 invariant forall k :: haskey(a.permissions, k) ==> old(haskey(a.permissions, k))
+//@   loop 2 invariant a.fiveTuple != nil && a.log != nil && chansWF(a) && closed(a.closed) && !armed(a.lifetimeTimer) && socketsClosed >= old(socketsClosed) && (forall k :: !haskey(a.tcpConnections, k))
+//@   loop 2 invariant -1 <= rangeindex && rangeindex < len(ranged()) && (forall j :: 0 <= j && j < len(ranged()) ==> ranged()[j] != nil && ranged()[j].lifetimeTimer != nil) && (len(ranged()) == 0 || (base(ranged()) != base(a.channelBindings) && base(ranged()) < allocTop))
+//@   loop 2 invariant forall k :: haskey(a.permissions, k) ==> old(haskey(a.permissions, k))
+//@   loop 2 invariant base(a.channelBindings) == old(base(a.channelBindings)) || base(a.channelBindings) >= old(allocTop)
+//@ func (*Manager).DeleteAllocation
+//@   requires fiveTuple != nil && m.log != nil
+//@   requires allocOf(m, fiveTuple.SrcAddr, fiveTuple.DstAddr, int(fiveTuple.Protocol)) != nil ==> closeReady(allocOf(m, fiveTuple.SrcAddr, fiveTuple.DstAddr, int(fiveTuple.Protocol)))
+//@   ensures [C04,C06:removed] allocOf(m, fiveTuple.SrcAddr, fiveTuple.DstAddr, int(fiveTuple.Protocol)) == nil
+//@   ensures [C04:frame] forall k :: k != tupleKey(fiveTuple.SrcAddr, fiveTuple.DstAddr, int(fiveTuple.Protocol)) ==> haskey(m.allocations, k) == old(haskey(m.allocations, k)) && valat(m.allocations, k) == old(valat(m.allocations, k))
+//@   ensures [C06,C15:closed] old(allocOf(m, fiveTuple.SrcAddr, fiveTuple.DstAddr, int(fiveTuple.Protocol))) != nil ==> closed(old(allocOf(m, fiveTuple.SrcAddr, fiveTuple.DstAddr, int(fiveTuple.Protocol))).closed)
+//@   ensures [C15:event-once] allocDeletedEvents == old(allocDeletedEvents) + ((old(allocOf(m, fiveTuple.SrcAddr, fiveTuple.DstAddr, int(fiveTuple.Protocol))) != nil && m.EventHandler.OnAllocationDeleted != nil) ? 1 : 0)
+//@   ensures [C15:absent-noop] old(allocOf(m, fiveTuple.SrcAddr, fiveTuple.DstAddr, int(fiveTuple.Protocol))) == nil ==> socketsClosed == old(socketsClosed)
